@@ -125,6 +125,28 @@ func init() {
 		},
 		LevelNote: "Proved for every cache content and every schedule in the lock-invariant model: IsReplay is an atomic test-and-set under one write lock - it returns true exactly when (client name, authenticator time incl. microseconds, service name) was recorded at the moment the lock was taken, records the presentation, and neither forgets nor adds any other record; AddEntry likewise; ClearOldEntries never adds a record; every access to the guarded maps happens with the lock held at the needed level, no lock is re-acquired or released unheld, and the lock invariant (every client has its own non-nil map) is re-established at each release. VerifyAPREQ accepts only when IsReplay answered false (ghost lastIsReplay).",
 	}
+	props["C03"] = &PropDef{
+		Funcs: []string{
+			`spnego.SPNEGOKRB5Authenticate$1`, `spnego.getAuthorizationNegotiationHeaderAsSPNEGOToken`, `spnego.getSessionCredentials`, `spnego.newSession`,
+			`spnego\.spnego(NegotiateKRB5MechType|ResponseReject|InternalServerError|ResponseAcceptCompleted)`,
+			`(*spnego.SPNEGO).AcceptSecContext`, `\(\*spnego\.(SPNEGOToken|NegTokenInit|NegTokenResp|KRB5Token)\)\.(Verify|Context)`,
+			`service.VerifyAPREQ`,
+		},
+		Kinds:           kinds(contractKinds...),
+		NeedObligations: true,
+		QuickTimeout:    20,
+		Assumptions: []string{
+			"context.Background / WithValue / Value are modelled: a context made by WithValue(parent, k, v) answers Value(k) with v, keys compared as interface values (stdlib, trusted)",
+			"net/http is seen through ghost records: http.Error sets the response status, Header.Set records that WWW-Authenticate was set, Handler.ServeHTTP marks the request as served (trusted stdlib contracts)",
+			"the session store (goidentity / gorilla session manager behind service.Settings) is external: a session whose gob-encoded credentials decode and report Authenticated() is taken as established by an earlier accepted request",
+			"ghost variables apreqAccepted / apreqCreds record the outcome of the last service.VerifyAPREQ call; a stale value cannot help a proof because the entry value of a ghost is arbitrary",
+		},
+		NotDecided: []string{
+			"the exact WWW-Authenticate header value (Negotiate plus the base64 NegTokenResp) is not compared, only that the header is set together with status 401",
+			"sequences of requests with a session manager: the session store is external and not under contract",
+		},
+		LevelNote: "Proved for every request and token: KRB5Token.Verify, NegTokenInit/NegTokenResp/SPNEGOToken.Verify and AcceptSecContext return ok only if service.VerifyAPREQ accepted the AP-REQ inside the token, then with status COMPLETE and a context carrying exactly the credentials VerifyAPREQ returned, and never return status COMPLETE otherwise; the HTTP wrapper calls the wrapped handler only after such an acceptance (with those credentials as identity) or for an established session, and otherwise answers 401 with WWW-Authenticate set (500 when the session store fails).",
+	}
 	props["C17"] = &PropDef{
 		Funcs: []string{
 			`(*gssapi.WrapToken).Marshal`, `(*gssapi.WrapToken).Unmarshal`, `(*gssapi.WrapToken).computeCheckSum`, `(*gssapi.WrapToken).Verify`,
